@@ -4,6 +4,7 @@
   `Proofs/SpecSound.lean` instantiates `schedule_indep` with it.   No Mathlib.
 -/
 import GasolVerif.Models.Spec
+import GasolVerif.Concrete
 namespace GasolVerif.Spec
 
 /-- the symbol that stands for the result of the load writing variable `o`: the variable name itself
@@ -162,14 +163,65 @@ def firstUnordered (S : Spec) (edges : List (String × String)) (fuel : Nat) (L 
 def respectsB (L : List String) (edges : List (String × String)) : Bool :=
   edges.all fun (x, y) => L.idxOf x < L.idxOf y
 
+/-- addresses and keys a memory / storage term writes, under a concrete environment (observation only) -/
+partial def touchedOf (e : GasolVerif.Env) (σ : St) : Tm → Concrete.Touched → Concrete.Touched
+  | .mstore m a _, t => touchedOf e σ m { t with addrs := Concrete.wordRange (evalW e σ a).toNat ++ t.addrs }
+  | .mstore8 m a _, t => touchedOf e σ m { t with addrs := (evalW e σ a).toNat :: t.addrs }
+  | .sstore s k _, t => touchedOf e σ s { t with keys := evalW e σ k :: t.keys }
+  | _, t => t
+
+/-- SPECRUN: the specification evaluated under the schedule, on a concrete state, against the block run from the same
+    state (failing-input search for a `mismatch` of SPECCHK; never a verdict of "holds") -/
+def handleSpecRun (seed stack block src tgt instrs deps sched : String) : String :=
+  match seed.toNat?, ((stack.splitOn ",").filter (· ≠ "")).mapM (fun h => (parseHex? h).map (BitVec.ofNat 256)),
+      parseBlock? block, parseSpec src tgt instrs deps with
+  | some sd, some st, some B, some S =>
+    match evalSpec S (splitNE sched ",") with
+    | none => "error:does-not-evaluate"
+    | some X =>
+      let e := Concrete.env sd
+      let σ := Concrete.initSt sd st
+      if σ.stack.length < X.base then "skip:stack-too-short" else
+      match Concrete.run e B σ {} with
+      | (none, _) => "skip:block-fails"
+      | (some a, t) =>
+        let b := X.conc e σ
+        let t' := touchedOf e σ X.sto (touchedOf e σ X.mem t)
+        match Concrete.diffSt a b t' with
+        | none => "same"
+        | some d => "diff:" ++ d
+  | _, _, _, _ => "error:parse"
+
+/-- a load whose result nothing uses (no operand, not in the target stack) cannot influence what the specification
+    denotes: such loads are left out before the schedules are checked -/
+def deadLoads (S : Spec) : List String :=
+  (S.instrs.filter fun u =>
+    (u.op == "MLOAD" || u.op == "SLOAD" || u.op == "KECCAK256" || u.op == "SHA3") &&
+    match u.out with
+    | some o => !(S.tgt.contains (.var o)) && !(S.instrs.any fun w => w.inp.contains (.var o))
+    | none => false).map (·.id)
+
+def pruneDeadOnce (S : Spec) : Spec :=
+  let dead := deadLoads S
+  -- an ordering that went through a removed load is kept: a → load → b becomes a → b
+  let through := S.deps.flatMap fun (a, d) =>
+    if dead.contains d then (S.deps.filter fun (d', _) => d' == d).map fun (_, b) => (a, b) else []
+  { S with instrs := S.instrs.filter (fun u => !dead.contains u.id),
+           deps := (S.deps ++ through).filter fun (a, b) => !dead.contains a && !dead.contains b }
+
+def pruneDead (S : Spec) : Spec := (List.range S.instrs.length).foldl (fun T _ => pruneDeadOnce T) S
+
+
 /-- SPECCHK: (1) `conflictsOrdered` on the first schedule (premise of `checked_schedules_agree`: conflicting
     operations are connected by dependences + data flow); (2) every given schedule is a permutation of the
     operations and respects those pairs; (3) the specification evaluated under each given schedule is the
     block (symbolic execution, proved normaliser) -/
 def handleSpecChk (nf : Normaliser) (block src tgt instrs deps scheds : String) : String :=
-  match parseBlock? block, parseSpec src tgt instrs deps with
+  match parseBlock? block, (parseSpec src tgt instrs deps).map pruneDead with
   | some B, some S =>
-    let Ls := (scheds.splitOn "|").map (splitNE · ",")
+    -- loads whose result nothing uses are left out (see `deadLoads`); the schedules lose their identifiers
+    let ids := S.instrs.map (·.id)
+    let Ls := ((scheds.splitOn "|").map (splitNE · ",")).map fun L => L.filter ids.contains
     match Ls with
     | [] => "error:no-schedule"
     | L0 :: _ =>
